@@ -284,10 +284,14 @@ def selftest(ctx):
     k = 0
     for i, e in enumerate(evs):
         ln = i + 1
-        if ln in already or "res" not in e or "ok" not in e.get("res", {}):
-            if e["ev"] == "arch" and i % 3 == 0:
+        if ln in already:
+            continue
+        if e["ev"] == "arch":
+            if i % 3 == 0 and "name" in e:
                 e["name"] = "mips" if e["name"] != "mips" else "ppc"
                 bad.add(ln)
+            continue
+        if "ok" not in e.get("res", {}):
             continue
         ok = e["res"]["ok"]
         k += 1
